@@ -107,6 +107,8 @@ let () =
                 (match r.w_K with
                  | WKUntouched -> "U"
                  | WKExported (t, f) -> Printf.sprintf "E:%s:%s:%d" (sm_name t) (toper_name f) (toper_size f)
+                 (* Green-Lagrange + DS_DEGL is a plain copy: the three kinds of conversion have the same image *)
+                 | WKPrediction (DS_DEGL, t) | WKIntegration (DS_DEGL, t, _) when w = WGreenLagrange -> "P/I/Izero:DS_DEGL:" ^ sm_name t
                  | WKPrediction (f, t) -> "P:" ^ toper_name f ^ ":" ^ sm_name t
                  | WKIntegration (f, t, st) -> (if st then "I:" else "Izero:") ^ toper_name f ^ ":" ^ sm_name t
                  | WKGarbage -> "X")
